@@ -1267,7 +1267,13 @@ class GroupBy:
 
         if np.ndim(agg_func) == 0:
             func = getattr(self, func_name(agg_func))
-            return func(values, mask=mask, transform=transform, margins=margins)
+            return func(
+                values,
+                mask=mask,
+                transform=transform,
+                margins=margins,
+                observed_only=observed_only,
+            )
 
         elif np.ndim(agg_func) == 1:
             if isinstance(values, ArrayType1D):
